@@ -1,7 +1,38 @@
 package agreement
 
 // C07 - Persisted consensus state restores exactly.
-// (header completed below)
+//
+// Engine E-AGR (reduced-scale configurations of C01, plus an equivocation configuration) with the
+// differential hook eagrDiffer on EVERY submitTop call of every explored transition. For the live
+// state S of the node about to handle event e (S was produced only by submitTop calls and
+// encode-independent deep copies, never by decode):
+//   1. S' = decode(encode(S)) succeeds, restores the clock zero, and encode(S') == encode(S) byte for byte;
+//   2. S'' = decode(encode(S, reflect), reflect) (go-codec path) re-encodes (msgp) to the same bytes;
+//   3. S' is structurally equal - over ALL fields, exported or not, maps/slices nil==empty - to the
+//      reference image R = deep copy of S with only the fields cleared that the code documents as not
+//      persisted (list eagrEphemeral with the source comment for each: message handles, proposal.ve,
+//      validatedAt/receivedAt timings, lowestCredentialArrivals, late-credential tracking, telemetry
+//      fields) and old-round routers dropped (encode(): "Don't persist state for old rounds");
+//   4. behaviour: submitTop(e) on S' and on R yields the same action list (type, tag, sender/round/period/
+//      step/value of every vote, bundle sizes, handle nil-ness, ...) and successors that encode and
+//      compare identically;
+//   5. the action list produced by the live node, when it contains a persistent (attest) action - the
+//      only lists Service.persistState writes - survives encode/decode (same types, structurally equal).
+// Non-vacuity counters in the evidence: states with step routers / pending proposal table /
+// pipelined next-round routers / equivocation records.
+//
+// Mutants (bin/mut, quick tier):
+//   DETECTED  persistence.go encode: child filter `rnd > p.Round` (current round dropped).
+//   DETECTED  msgp_gen.go proposalTracker: "Staging" not restored (what marking it codec:"-" and
+//             regenerating would do).
+//   DETECTED  msgp_gen.go voteTracker: "EquivocatorsCount" not restored (needs two adversary votes
+//             for different values to the same node and step: only the equivocation configuration shows it).
+//   (see report) persistence.go decode: root actor built around a zero player (`makeRootRouter(player{})`):
+//             invisible to 1-3, caught by 4.
+// Observation (not a violation of the property): actions.go zeroAction() has no case for stageDigest,
+// so decode() would panic on a persisted action list containing a stageDigestAction; no reachable
+// transition emits stageDigest together with an attest action, so such a list is never persisted.
+// Not covered: the SQLite crash database and asyncPersistenceLoop (C02(ii)); states beyond the C01 bounds.
 
 import (
 	"fmt"
@@ -40,7 +71,11 @@ func TestVerif_C07(t *testing.T) {
 				r.Report("C07:"+c07Class(d), fmt.Sprintf("[%s] during %v: %s", b.name, e, d), eagrReplayOf(b, path))
 			}
 		},
-		rule: "under construction.",
+		rule: "For the live node state before every submitTop call of every explored transition: decode(encode(S)) re-encodes to identical bytes (msgp and reflection codec), equals the live state structurally over all fields except those documented as not persisted, behaves identically on the event (same actions, same successor), and persisted action lists round-trip.",
+		assume: []string{
+			"fields documented in the source as not persisted are excluded by name (listed with the source comment in coverage.fields_excluded_as_documented_not_persisted); that clearing them cannot change safety-relevant behaviour is the code's documented intent, not checked here",
+			"explored states are those of the C01 configurations at reduced deviation budgets; the crash database itself (SQLite) is not involved",
+		},
 		finish: func(r *ve.Run, total *eagrStats) {
 			r.Set("states_round_tripped", differ.states.Load())
 			r.Set("events_run_on_restored_and_reference_image", differ.events.Load())
